@@ -163,7 +163,9 @@ TEXT = {
                 'the real CachingScheduleTracker is fed each history and asked for the schedule under every memory limit; the '
                 'property is the relation SchedOK of spec/Schedule.tla between history, limit and schedule, evaluated on every '
                 'output by the harness (from slot bookkeeping only) and by TLC on the recorded events, together with a '
-                'satisfiability check of the relation for the same history.',
+                'satisfiability check of the relation for the same history. TLC also model-checks the forward pass of the algorithm '
+                '(spec/ScheduleAlg.tla: bounded cache of (slot, time to live) pairs) against the relation over every history, limit and '
+                'offering order in bounds, with two refuted variants.',
         'design_ref': 'DESIGN.md section 5 (C15)',
         'note': COMMON_NOTE,
         'technique': 'TLA+ relation SchedOK; histories generated by TLC (G->R), outputs of the code validated by TLC against the relation (R->T)',
